@@ -163,8 +163,17 @@ Fixpoint find_cuwp_id (c : rcuwp) (t : list rcuwp) (acc : option N) : option N :
   | [] => acc
   | k :: r => find_cuwp_id c r (if rcuwp_eqb c k then c_idx k else acc)
   end.
+(* RichCuwpLookup.get_id_by_cuwp: a slot that still sits at the index it carries keeps that index; otherwise
+   the last slot holding equal properties (equality ignores the index) *)
 Definition id_by_cuwp (cx : context) (c : rcuwp) : result N :=
-  of_option KeyError (find_cuwp_id c (cx_cuwps cx) None).
+  match c_idx c with
+  | Some i =>
+      match cuwp_by_id cx i with
+      | Some k => if rcuwp_eqb c k then Ok i else of_option KeyError (find_cuwp_id c (cx_cuwps cx) None)
+      | None => of_option KeyError (find_cuwp_id c (cx_cuwps cx) None)
+      end
+  | None => of_option KeyError (find_cuwp_id c (cx_cuwps cx) None)
+  end.
 
 Fixpoint find_switch_id (s : rswitch) (t : list (rswitch * N)) (acc : option N) : option N :=
   match t with
